@@ -17,6 +17,16 @@
 (*                      | SRcv SYN(n) -> SReply again (resent)             *)
 (*                      | SRcv other -> fail (io.EOF) }                    *)
 (* A SYN proposing the unrepresentable window 255 fails the server.        *)
+(*                                                                         *)
+(* The server answers every SYN, so a client that re-sent its SYN gets the *)
+(* answers to the surplus SYNs after its handshake (CLate): the receive     *)
+(* loop of the data phase skips them (gbn/gbn_conn.go, case *PacketSYN for  *)
+(* the client).  The pinned code closed the connection instead              *)
+(* (ClientSkipsLateSyn = FALSE names that deviation: UsableWithoutStale     *)
+(* fails after two handshake timeouts, i.e. on a loss-free link whose round *)
+(* trip exceeds the first two timeouts no attempt ever gave a usable        *)
+(* connection).  The client's abandoned handshake reader may still take one *)
+(* packet off the transport after the handshake (CAbsorb).                  *)
 (***************************************************************************)
 EXTENDS Integers, Sequences, FiniteSets, TLC
 
@@ -25,14 +35,16 @@ CONSTANTS
     StaleC,      \* stale packets initially queued towards the client
     StaleS,      \* stale packets initially queued towards the server
     MaxDrop, MaxDup, MaxTimeouts,   \* model bounds
-    ChanCap
+    ChanCap,
+    ClientSkipsLateSyn   \* TRUE: as repaired; FALSE: the pinned behaviour
 
 Syn(n)  == [k |-> "SYN", n |-> n]
 SynAck  == [k |-> "SYNACK"]
 Pkt(k)  == [k |-> k]                 \* DATA / ACK / NACK / FIN
 
 VARIABLES
-    cpc,      \* "start" | "wait" | "ack" | "done" | "fail"
+    cpc,      \* "start" | "wait" | "ack" | "done" | "fail" | "down" (data phase ended by a left-over packet)
+    absorbed, \* the client's abandoned handshake reader has taken its one packet
     spc,      \* "waitSyn" | "reply" | "waitAck" | "done" | "fail"
     cResent, sResent,
     sN,       \* window the server would adopt (from the last SYN it accepted)
@@ -40,7 +52,7 @@ VARIABLES
     toC, toS, \* channels
     drops, dups, timeouts
 
-vars == <<cpc, spc, cResent, sResent, sN, seenN, toC, toS, drops, dups, timeouts>>
+vars == <<cpc, spc, cResent, sResent, sN, seenN, toC, toS, drops, dups, timeouts, absorbed>>
 
 Init ==
     /\ cpc = "start" /\ spc = "waitSyn"
@@ -48,6 +60,7 @@ Init ==
     /\ sN = -1 /\ seenN = {}
     /\ toC = StaleC /\ toS = StaleS
     /\ drops = 0 /\ dups = 0 /\ timeouts = 0
+    /\ absorbed = FALSE
 
 Put(c, p, k) == IF k = 0 THEN c ELSE IF k = 1 THEN Append(c, p)
                 ELSE Append(Append(c, p), p)
@@ -60,14 +73,14 @@ CSendSyn(k) ==
     /\ cpc = "start"
     /\ toS' = Put(toS, Syn(CliN), k) /\ Fault(k)
     /\ cpc' = "wait"
-    /\ UNCHANGED <<spc, cResent, sResent, sN, seenN, toC, timeouts>>
+    /\ UNCHANGED <<spc, cResent, sResent, sN, seenN, toC, timeouts, absorbed>>
 
 \* no SYN from the server within the handshake timeout
 CTimeout ==
     /\ cpc = "wait"
     /\ cResent' = TRUE /\ cpc' = "start"
     /\ timeouts' = timeouts + 1
-    /\ UNCHANGED <<spc, sResent, sN, seenN, toC, toS, drops, dups>>
+    /\ UNCHANGED <<spc, sResent, sN, seenN, toC, toS, drops, dups, absorbed>>
 
 \* the client reads a packet while waiting for the server's SYN
 CRcv ==
@@ -77,14 +90,14 @@ CRcv ==
        IF p.k = "SYN"
        THEN cpc' = IF p.n = CliN THEN "ack" ELSE "fail"     \* io.EOF on mismatch
        ELSE UNCHANGED cpc                                    \* ignored
-    /\ UNCHANGED <<spc, cResent, sResent, sN, seenN, toS, drops, dups, timeouts>>
+    /\ UNCHANGED <<spc, cResent, sResent, sN, seenN, toS, drops, dups, timeouts, absorbed>>
 
 \* the client answers the server's SYN with SYNACK and is done
 CSendSynAck(k) ==
     /\ cpc = "ack"
     /\ toS' = Put(toS, SynAck, k) /\ Fault(k)
     /\ cpc' = "done"
-    /\ UNCHANGED <<spc, cResent, sResent, sN, seenN, toC, timeouts>>
+    /\ UNCHANGED <<spc, cResent, sResent, sN, seenN, toC, timeouts, absorbed>>
 
 Representable(n) == n \in 0..254
 
@@ -101,14 +114,14 @@ SRcvWaitSyn ==
        ELSE IF p.k \in {"SYNACK", "DATA"} /\ sResent
        THEN spc' = "done" /\ UNCHANGED <<sN, seenN>>   \* the client completed
        ELSE UNCHANGED <<spc, sN, seenN>>               \* ignored
-    /\ UNCHANGED <<cpc, cResent, sResent, toC, drops, dups, timeouts>>
+    /\ UNCHANGED <<cpc, cResent, sResent, toC, drops, dups, timeouts, absorbed>>
 
 \* the server echoes the SYN
 SReply(k) ==
     /\ spc = "reply"
     /\ toC' = Put(toC, Syn(sN), k) /\ Fault(k)
     /\ spc' = "waitAck"
-    /\ UNCHANGED <<cpc, cResent, sResent, sN, seenN, toS, timeouts>>
+    /\ UNCHANGED <<cpc, cResent, sResent, sN, seenN, toS, timeouts, absorbed>>
 
 \* the server reads a packet while waiting for the SYNACK
 SRcvWaitAck ==
@@ -123,21 +136,36 @@ SRcvWaitAck ==
                THEN sN' = p.n /\ spc' = "reply"
                ELSE spc' = "fail" /\ UNCHANGED sN
        ELSE spc' = "fail" /\ UNCHANGED <<sN, seenN, sResent>>   \* io.EOF
-    /\ UNCHANGED <<cpc, cResent, toC, drops, dups, timeouts>>
+    /\ UNCHANGED <<cpc, cResent, toC, drops, dups, timeouts, absorbed>>
 
 \* no SYNACK within the handshake timeout: wait for the client to start over
 STimeout ==
     /\ spc = "waitAck"
     /\ sResent' = TRUE /\ spc' = "waitSyn"
     /\ timeouts' = timeouts + 1
-    /\ UNCHANGED <<cpc, cResent, sN, seenN, toC, toS, drops, dups>>
+    /\ UNCHANGED <<cpc, cResent, sN, seenN, toC, toS, drops, dups, absorbed>>
 
 \* after its handshake the client is in the data phase: it may send DATA
 \* (the packet that lets a restarted server complete)
 CData(k) ==
     /\ cpc = "done" /\ spc # "done"
     /\ toS' = Put(toS, Pkt("DATA"), k) /\ Fault(k)
-    /\ UNCHANGED <<cpc, spc, cResent, sResent, sN, seenN, toC, timeouts>>
+    /\ UNCHANGED <<cpc, spc, cResent, sResent, sN, seenN, toC, timeouts, absorbed>>
+
+\* the client's handshake reader goroutine, left with a read request when the
+\* handshake returned, takes one more packet off the transport and drops it
+CAbsorb ==
+    /\ cpc = "done" /\ ~absorbed /\ toC # <<>>
+    /\ toC' = Tail(toC) /\ absorbed' = TRUE
+    /\ UNCHANGED <<cpc, spc, cResent, sResent, sN, seenN, toS, drops, dups, timeouts>>
+
+\* the client's receive loop (data phase) reads a left-over handshake packet:
+\* a late answer to a re-sent SYN is skipped, a SYNACK is unexpected
+CLate ==
+    /\ cpc = "done" /\ toC # <<>> /\ Head(toC).k \in {"SYN", "SYNACK"}
+    /\ toC' = Tail(toC)
+    /\ cpc' = IF Head(toC).k = "SYN" /\ ClientSkipsLateSyn THEN "done" ELSE "down"
+    /\ UNCHANGED <<spc, cResent, sResent, sN, seenN, toS, drops, dups, timeouts, absorbed>>
 
 CanFault(k) == (k = 0 => drops < MaxDrop) /\ (k = 2 => dups < MaxDup)
 Room == Len(toC) < ChanCap /\ Len(toS) < ChanCap
@@ -152,6 +180,8 @@ Next ==
     \/ SRcvWaitAck
     \/ timeouts < MaxTimeouts /\ STimeout
     \/ \E k \in {0, 1} : CanFault(k) /\ Room /\ Len(toS) < 2 /\ CData(k)
+    \/ CAbsorb
+    \/ CLate
 
 \* fairness for the liveness property: packets are read, replies are sent,
 \* and the timeouts fire when nothing else can happen
@@ -176,9 +206,13 @@ CliOwnN == cpc = "done" => TRUE
 
 \* a side that is not going to proceed has failed with an error (it is not
 \* silently stuck in a terminal state other than done/fail)
-Terminal == cpc \in {"start", "wait", "ack", "done", "fail"}
+Terminal == cpc \in {"start", "wait", "ack", "done", "fail", "down"}
             /\ spc \in {"waitSyn", "reply", "waitAck", "done", "fail"}
 
 \* with no stale packets and no faults left, a handshake completes
-Converges == <>(cpc \in {"done", "fail"} /\ spc \in {"done", "fail"})
+Converges == <>(cpc \in {"done", "fail", "down"} /\ spc \in {"done", "fail"})
+
+\* delay alone (handshake timeouts that fire, nothing stale, nothing
+\* duplicated) never costs the client a connection it has established
+UsableWithoutStale == (StaleC = <<>> /\ StaleS = <<>> /\ dups = 0) => cpc # "down"
 =============================================================================
